@@ -290,12 +290,91 @@ def winding_step(ctx, crate):
                 if abs(got - o * w) > 1e-12: res[o].append((a, c, got, o * w))
     bad = min(res.values(), key=len)
     ok_init = f64_from_bits(init[2]) == 0.0
+    # the other half of the heuristic: "more vertices in the south than in the north" — a counter from 0,
+    # one more per vertex of negative latitude, compared as 2 n > len (read at small values)
+    cnt = None
+    seen3 = set()
+    def is_counter(t):
+        ops_ = e.phi_ops.get(t, ())
+        steps = [o for o in ops_ if o == ('op', 'add', 'usize', t, ('c', 'usize', 1))]
+        rest = [o for o in ops_ if o not in steps]
+        return t not in e.phi_gate and len(steps) == 1 and rest and all(o[0] == 'c' and o[1] == 'usize' for o in rest) and min(o[2] for o in rest) == 0
+    def find_cnt(t, depth=0):
+        nonlocal cnt
+        if cnt is not None or t in seen3 or depth > 14 or not isinstance(t, tuple): return
+        seen3.add(t)
+        if t[0] == 'phi':
+            if is_counter(t): cnt = t; return
+            for o in (e.phi_gate.get(t) or e.phi_ops.get(t, ())): find_cnt(o, depth + 1)
+            return
+        for x in t:
+            if isinstance(x, tuple): find_cnt(x, depth + 1)
+    find_cnt(r.ret)
+    okc = False; whyc = "no vertex counter found in the result"
+    if cnt is not None:
+        # where the counter is incremented: under a succeeded `lat < 0.0` (or `0.0 > lat`) on a field of a vertex
+        e4 = Engine(crate); incs = []
+        def vh4(v, loc, facts):
+            if loc[0] == fn and v[0] == 'op' and v[1] == 'add' and v[2] == 'usize' and v[4] == ('c', 'usize', 1) and v[3][0] in ('phi', 'c'):
+                incs.append(set(facts))
+        e4.value_hook = vh4
+        e4.run(fn)
+        zero = lambda t_: t_[0] == 'c' and t_[1] == 'f64' and f64_from_bits(t_[2]) == 0.0
+        def neg_lat(facts):
+            for f in facts:
+                if f[0] == 'b' and f[2] and f[1][0] == 'op' and ((f[1][1] == 'lt' and zero(f[1][4]) and f[1][3][0] == 'fld') or (f[1][1] == 'gt' and zero(f[1][3]) and f[1][4][0] == 'fld')): return True
+            return False
+        lat_test = bool(incs) and all(neg_lat(fs) for fs in incs)
+        gr = e.phi_gate.get(r.ret) if r.ret[0] == 'phi' else None
+        final = None
+        for cand in ([gr[1], gr[2]] if gr else [r.ret]):
+            if any(x == cnt for x in walk(cand)): final = cand
+        LEN = [x for x in walk(final) if x != cnt and x[0] in ('sym', 'call') and not any(y == cnt for y in walk(x))] if final is not None else []
+        okf = False
+        if final is not None and len(LEN) >= 1:
+            okf = True
+            for nn, ll in ((0, 3), (1, 3), (2, 3), (2, 4), (3, 4), (3, 5), (2, 5)):
+                v = feval(final, {cnt: nn, LEN[0]: ll}, e)
+                if v is None or bool(v) != (2 * nn > ll): okf = False
+        okc = bool(lat_test) and okf
+        whyc = "the counter adds one per vertex of negative latitude; the result requires 2 n > number of vertices" if okc else "vertex counter: %d increment site(s), all under `lat < 0`: %s; final test %s reads as 2 n > len: %s" % (len(incs), lat_test, show(final)[:60] if final else None, okf)
+    ctx.report(clause, "Basic::contains_south_pole:more-vertices-south-than-north", okc, whyc, at=b.span, kind="N")
     # the final test: false on a total of 0, true on a total of +-2pi (the vertex count being favourable)
     ctx.report(clause, key, not bad and ok_init and n >= 70,
                "%d pairs of longitudes: the update adds the difference wrapped to (-pi, pi); the sum starts at 0" % n if not bad and ok_init else
                ("the sum starts at %r" % f64_from_bits(init[2]) if not ok_init else
                 "%d of %d pairs wrong, e.g. longitudes %s and %s add %r to the sum, the short way round is %r — a polygon that crosses lon = 0 gets a total of +-2pi and is turned inside out" % (len(bad), n, bad[0][0], bad[0][1], bad[0][2], bad[0][3])),
                at=b.span, kind="N", sample={"pairs": n, "mismatches": [list(map(str, x)) for x in bad[:3]]})
+
+
+def cell_edges(ctx, crate):
+    """N: `has_intersection` (a cell with no vertex in the polygon, or four, is decided by whether
+    one of its edges crosses the polygon) tests the four edges of the cell: with the vertices in the
+    order S, E, N, W of `vertices`, the pairs handed to `intersect_great_circle_arc` are the four
+    cyclic neighbours {S,E}, {E,N}, {N,W}, {W,S}, in any order and orientation.  A repeated or a
+    diagonal pair leaves one edge untested: a polygon crossing only that edge flags the cell wrongly."""
+    clause = "cell-edges"
+    fns = [p_ for p_ in crate.bodies if p_ == "nested::has_intersection"]
+    iga = {p_ for p_ in crate.bodies if p_.endswith("Polygon::intersect_great_circle_arc")}
+    if not fns or not iga:
+        ctx.undecided(clause, "has_intersection", "function not found"); return
+    b = ctx.anchor(crate, fns[0], clause)
+    if b is None: return
+    e = Engine(crate, opaque=iga); e.run(fns[0]); ctx.functions |= e.visited_fns
+    pairs = []
+    for ev in e.events.values():
+        if ev.callee in iga and len(ev.args) == 3:
+            idx = []
+            for a in ev.args[1:]:
+                if a[0] == 'ref' and len(a[3]) == 1 and a[3][0][0] == 'i': idx.append((a[2], a[3][0][1]))
+                else: idx.append(None)
+            pairs.append(idx)
+    if len(pairs) != 4 or any(p_[0] is None or p_[1] is None for p_ in pairs):
+        ctx.not_decided("has_intersection: which pairs of vertices are tested (calls not in the form f(&v[a], &v[b]))"); return
+    ok = all(p_[0][0] == p_[1][0] for p_ in pairs)
+    got = sorted(tuple(sorted((p_[0][1], p_[1][1]))) for p_ in pairs) if ok else None
+    ok = ok and got == [(0, 1), (0, 3), (1, 2), (2, 3)]
+    ctx.report(clause, "has_intersection:four-edges", ok, "edges tested: {S,E}, {E,N}, {N,W}, {W,S}" if ok else "pairs of vertices tested: %s — not the four edges of the cell" % (got if got is not None else pairs), at=b.span, kind="N")
 
 
 def count_rule(ctx, crate):
@@ -475,6 +554,7 @@ def run(ctx):
     lon_range_table(ctx, crate)
     coo3d_invariant(ctx, crate)
     winding_step(ctx, crate)
+    cell_edges(ctx, crate)
     driver(ctx, crate)
     from rules.c09 import recursion_shape
     recursion_shape(ctx, crate, RECUR)
